@@ -14,6 +14,8 @@ pub enum Case {
     /// history independence: for every requested list, ask it of every layout in turn, each number built
     /// fresh and dropped before the next one (so that remembered look-ups meet re-used storage)
     SameListSequence { nuni: usize },
+    /// a menu of large numbers (size names) read back through a menu of requested lists
+    Large { size: usize },
 }
 
 fn gval(name: usize, side: usize) -> f64 {
@@ -66,6 +68,9 @@ fn cases(tier: Tier) -> Vec<Case> {
     }
     // the same requested list put to many freshly built numbers in a row (one thread, numbers dropped in between)
     out.push(Case::SameListSequence { nuni: 3 });
+    for size in [5usize, 7, 8, 9, 16, 17, 33] {
+        out.push(Case::Large { size });
+    }
     let pn = 3;
     let fs = operands(pn, 1.5, 0, true);
     let gs = operands(pn, -2.5, 1, true);
@@ -190,6 +195,79 @@ pub fn check(case: &Case, idx: u64, acc: &mut Acc) {
                 acc.sample(cj);
             }
         }
+        Case::Large { size } => {
+            let size = *size;
+            let stored: Vec<usize> = (0..size).map(|i| (i * 3 + 1) % size).collect::<Vec<_>>();
+            let mut chk = stored.clone();
+            chk.sort();
+            let stored: Vec<usize> = if chk == (0..size).collect::<Vec<_>>() { stored } else { (0..size).rev().collect() };
+            let name = |i: usize| format!("v{}", i);
+            let gv = |n: usize| gen_val(n * 2 + 1) + 0.015625 * n as f64;
+            let hv = |a: usize, b: usize| if a == b || a + 1 == b || b + 1 == a || (a + b) % 7 == 0 { 0.5 * gen_val(a + b) } else { 0.0 };
+            let d1 = rateslib::dual::Dual::try_new(0.75, stored.iter().map(|i| name(*i)).collect(), stored.iter().map(|i| gv(*i)).collect()).unwrap();
+            let mut hflat = vec![];
+            for a in stored.iter() {
+                for b in stored.iter() {
+                    hflat.push(0.5 * hv(*a, *b));
+                }
+            }
+            let d2 = Dual2::try_new(0.75, stored.iter().map(|i| name(*i)).collect(), stored.iter().map(|i| gv(*i)).collect(), hflat).unwrap();
+            // requested lists; index >= size means an absent name
+            let mut reqs: Vec<Vec<usize>> = vec![
+                stored.clone(),
+                stored.iter().rev().cloned().collect(),
+                (0..size).collect(),
+                (0..size).map(|i| stored[(i + 2) % size]).collect(),
+                (0..size).filter(|i| i % 2 == 0).collect(),
+                (0..size + 3).rev().collect(),
+                vec![stored[0], stored[size - 1], stored[size / 2]],
+            ];
+            let mut mixed = vec![];
+            for i in 0..size {
+                mixed.push(stored[i]);
+                if i % 3 == 1 {
+                    mixed.push(size + i);
+                }
+            }
+            reqs.push(mixed);
+            for req in reqs.iter() {
+                acc.evals_add(4);
+                acc.nontrivial();
+                let rn: Vec<String> = req.iter().map(|i| name(*i)).collect();
+                let w1: Vec<f64> = req.iter().map(|i| if *i < size { gv(*i) } else { 0.0 }).collect();
+                let want2 = |a: usize, b: usize| if a < size && b < size { hv(a, b) } else { 0.0 };
+                if d1.gradient1(rn.clone()).to_vec() != w1 {
+                    acc.violate("large/gradient1/Dual", idx, cj(), json!({"request": rn}), json!(d1.gradient1(rn.clone()).to_vec()));
+                }
+                if d2.gradient1(rn.clone()).to_vec() != w1 {
+                    acc.violate("large/gradient1/Dual2", idx, cj(), json!({"request": rn}), json!(d2.gradient1(rn.clone()).to_vec()));
+                }
+                let h = d2.gradient2(rn.clone());
+                let man = d2.gradient1_manifold(rn.clone());
+                let mut bad2 = h.shape() != [req.len(), req.len()];
+                let mut badm = man.len() != req.len();
+                for (i, a) in req.iter().enumerate() {
+                    for (j, b) in req.iter().enumerate() {
+                        if !bad2 && h[[i, j]] != want2(*a, *b) {
+                            bad2 = true;
+                        }
+                        if !badm && (man[i].dual().len() != req.len() || man[i].dual()[j] != want2(*a, *b)) {
+                            badm = true;
+                        }
+                    }
+                    if !badm && (man[i].real() != w1[i] || man[i].vars().iter().cloned().collect::<Vec<_>>() != rn) {
+                        badm = true;
+                    }
+                }
+                if bad2 {
+                    acc.violate("large/gradient2", idx, cj(), json!({"request": rn}), json!("Hessian entries by name differ"));
+                }
+                if badm {
+                    acc.violate("large/manifold", idx, cj(), json!({"request": rn}), json!("manifold entries by name differ"));
+                }
+            }
+            acc.sample(cj);
+        }
         Case::SameListSequence { nuni } => {
             let u = universe(*nuni);
             let ops = operands(*nuni, 1.5, 0, true);
@@ -300,7 +378,8 @@ pub fn run(ctx: &Ctx, replay_file: Option<String>) -> ! {
          (incl. exactly-the-stored-list, its permutations, sub/supersets). gradient1 (Dual, Dual2), gradient2 and \
          gradient1_manifold are compared entry by entry, exactly, with the by-name derivative (0 for absent). Product \
          identity manifold(f*g)[i] = manifold(f)[i]*g + f*manifold(g)[i] for every pair of a 3-name pool with full \
-         Hessians and every requested list. History independence: every requested list put, in a row on one thread, to \
+         Hessians and every requested list. Larger numbers on a menu (5..33 names) through a menu of requests (stored, reversed, sorted, rotated, every \
+         other, with absent names, three scattered names). History independence: every requested list put, in a row on one thread, to \
          every layout of a 3-name pool, each number built fresh and dropped before the next. Non-trivial: requests that differ from the stored list.",
         json!({"names": 4, "requested_lists": ordered_sublists(5).len(), "cases": cs.len()}),
     )
